@@ -1029,6 +1029,11 @@ func runDistrCase(ta *TestApp, seed uint64, idx int, rep *Report, profile string
 							tol := new(big.Rat).SetFrac(bi(int64(1000*(bIdx+1)*len(cfg.subs)*len(cfg.subs))), new(big.Int).Exp(bi(10), bi(18), nil))
 							rep.Eval("C04.credited_equals_share_of_inflow"+cls, diff.Cmp(tol) <= 0, idx, bIdx,
 								fmt.Sprintf("destination %s denom %s: credited %s exact share %s", key, dn, got.FloatString(18), want.FloatString(18)))
+							if burn {
+								// C01: what left the supply (plus what is booked to be burned) is the configured burn share of the inflows
+								rep.Eval("C01.burned_is_configured_burn_share"+cls, diff.Cmp(tol) <= 0, idx, bIdx,
+									fmt.Sprintf("denom %s: burned + booked for burning %s, configured burn share of the inflows %s", dn, got.FloatString(18), want.FloatString(18)))
+							}
 						}
 					}
 					for _, s := range cfg.subs {
